@@ -120,8 +120,6 @@ pub proof fn lemma_bits_of_concat(a: Seq<u8>, b: Seq<u8>)
 }
 
 // ---- little endian ----
-pub open spec fn le_bytes64(x: u64) -> Seq<u8> { Seq::new(8, |i: int| (x >> ((8 * i) as u64)) as u8) }
-pub open spec fn le_bytes32(x: u32) -> Seq<u8> { Seq::new(4, |i: int| (x >> ((8 * i) as u32)) as u8) }
 pub proof fn lemma_le_bytes64_bit(x: u64, j: int)
     requires 0 <= j < 64
     ensures bit_at(le_bytes64(x), j) == bit64(x, j)
